@@ -8,6 +8,8 @@ package sftp
 
 import (
 	"fmt"
+	"os"
+	"strings"
 
 	"verif/explore"
 	"verif/reg"
@@ -134,6 +136,7 @@ func c04Cases(tier string, group string) []c04Case {
 			{callers: [][]cop{{stat("/a")}}, permute: true, after: true},
 			{callers: [][]cop{{stat("/a")}, {rl("/l")}}, permute: true, after: true},
 			{callers: [][]cop{{wa(0, "PQ")}, {ra(4)}}, permute: true, after: true},
+			{callers: [][]cop{{{kind: "ReadDir", path: "/dir3"}}}, permute: true, after: true}, // a listing of three batches
 		}
 		if tier == "thorough" {
 			bases = append(bases, callsSpec{callers: [][]cop{{stat("/a"), ra(2)}, {rl("/l")}, {wa(0, "XY")}}, permute: true, after: true})
@@ -153,9 +156,11 @@ func c04Cases(tier string, group string) []c04Case {
 				}
 			}
 			for j := 1; j <= writes+1; j++ {
-				s := b
-				s.cut, s.fw = -1, j
-				out = append(out, c04Case{calls: &s, bound: deep, desc: s.String()})
+				for _, eof := range []bool{false, true} {
+					s := b
+					s.cut, s.fw, s.fwEOF = -1, j, eof
+					out = append(out, c04Case{calls: &s, bound: deep, desc: s.String()})
+				}
 			}
 		}
 	}
@@ -202,6 +207,9 @@ func init() {
 			if !c.Mine(int64(i)) {
 				continue
 			}
+			if f := os.Getenv("VERIF_C04_FILTER"); f != "" && !strings.Contains(cs.desc, f) {
+				continue
+			}
 			if c.Expired() {
 				total.Exhaustive = false
 				break
@@ -230,6 +238,14 @@ func init() {
 			}
 			for _, v := range r.Violations {
 				total.Violate(v.Property, v.Key, cs.desc+"\n"+v.Msg, map[string]any{"case": cs.desc, "schedule": v.Replay}, v.Trace)
+			}
+			if os.Getenv("VERIF_C04_FILTER") != "" {
+				if df, err := os.OpenFile(fmt.Sprintf("/dev/shm/c04dbg-%d.txt", os.Getpid()), os.O_CREATE|os.O_APPEND|os.O_WRONLY, 0o644); err == nil {
+					for k, v := range r.Outcomes {
+						fmt.Fprintf(df, "CASE %s\n   %d x %s\n", cs.desc, v, k)
+					}
+					df.Close()
+				}
 			}
 			if r.EngineError != "" {
 				total.EngineError = r.EngineError
